@@ -1,11 +1,13 @@
 """C03 - WHERE keeps exactly the matching rows: order-preservation and comparison tables (narrow claim)."""
 from rules import misc as M
+from rules import tables as T
 
 
 def run(ctx):
     M.ord1_dictionary_sorted(ctx)
     M.tbl2_codec_properties(ctx)
     M.tbl3_comparison_registry(ctx)
+    T.tbl17_constant_translation_is_inverse(ctx)
     return ctx.finish(
         'Static rules: the string dictionary is sorted before indices are assigned (range '
         'predicates run on dictionary indices), a codec op is declared order-/summation-preserving '
